@@ -151,7 +151,7 @@ type c03Env struct {
 func newC03Env(c *CfgSpec) (*c03Env, error) {
 	e := &c03Env{spec: c, sem: c.Sem()}
 	for d := 0; d < 2; d++ {
-		mw, err := cors.NewMiddleware(c.Config())
+		mw, err := newMiddlewareVia(c.Config(), int(hashString(specKey(c)))&7+d+1)
 		if err != nil {
 			return nil, err
 		}
